@@ -200,10 +200,13 @@ func SelectAddrFromSubnet(seed []byte, net1 *net.IPNet) (net.IP, error) {
 	bits, addrLen := net1.Mask.Size()
 
 	ipBigInt := &big.Int{}
+	ipLen := 0
 	if v4net := net1.IP.To4(); v4net != nil {
-		ipBigInt.SetBytes(net1.IP.To4())
+		ipBigInt.SetBytes(v4net)
+		ipLen = net.IPv4len
 	} else if v6net := net1.IP.To16(); v6net != nil {
-		ipBigInt.SetBytes(net1.IP.To16())
+		ipBigInt.SetBytes(v6net)
+		ipLen = net.IPv6len
 	}
 
 	seedInt, n := binary.Varint(seed)
@@ -234,7 +237,7 @@ func SelectAddrFromSubnet(seed []byte, net1 *net.IPNet) (net.IP, error) {
 	randBigInt.And(randBigInt, maskBigInt)
 	ipBigInt.Add(ipBigInt, randBigInt)
 
-	return net.IP(ipBigInt.Bytes()), nil
+	return bigIntToIP(ipBigInt, ipLen), nil
 }
 
 func init() {
